@@ -5,14 +5,15 @@
          tree = ast.parse(test_file.new_code())         #   new_code: read, format(source)?, format(edited)?
          ensure_import(...)                             #   if the new code uses external / HasRepr
          for external_name in used: storage.persist()   #   rename <hash>-new.suffix -> <hash>.suffix
-     cr.fix_all()                                       # phase B: per file new_code() again, open(.., "bw"), write
+     cr.fix_all()                                       # phase B: per file new_code() again, then SourceFile.rewrite:
+                                                        #   write a temporary file next to the test file, copy the mode, os.replace
      report_problems(console)
 
    together with SourceFile.new_code (_rewrite_code.py) and _format.format_code, as a sequential program over a small
    world (file contents on disk, external store, reported problems) in which every side-effecting call is a STEP at whose
    boundary one fault can be injected: an interruption (the process dies before the step) or a failure of the step
-   (black raises / format-command exits non-zero; read, rename, open raise OSError; write raises after the file was
-   opened).  The formatter's deterministic behaviour is part of the configuration (ok / always fails / returns unparsable
+   (black raises / format-command exits non-zero; read, rename, open, write, copymode, replace raise OSError).  A failure
+   inside SourceFile.rewrite removes the temporary file again (except clause); an interruption leaves it behind.  The formatter's deterministic behaviour is part of the configuration (ok / always fails / returns unparsable
    text with exit status 0).  Executable definitions only. *)
 From Coq Require Import List Bool Arith.
 Import ListNotations.
@@ -23,8 +24,10 @@ Inductive step :=
 | SParse                 (* ast.parse(new code) *)
 | SImport (f : nat)      (* ensure_import *)
 | SPersist (e : nat)     (* storage.persist(external) *)
-| SOpenW (f : nat)       (* open(filename, "bw"): truncates *)
-| SWrite (f : nat).      (* code.write(...) *)
+| SOpenW (f : nat)       (* open(<filename>.inline-snapshot.tmp, "bw") *)
+| SWrite (f : nat)       (* code.write(...) into the temporary file *)
+| SMode (f : nat)        (* shutil.copymode(filename, temporary file) *)
+| SRename (f : nat).     (* os.replace(temporary file, filename): atomic *)
 
 Inductive fkind := Crash | Fail.
 Inductive fmode := FOk | FFails | FGarbage.        (* what the formatter does on every call *)
@@ -36,14 +39,16 @@ Record file := { f_id : nat; f_clean : bool; f_import : bool; f_exts : list nat 
 Record config := { c_enforce : bool; c_fmt : fmode; c_files : list file }.
 
 (* the external store: (id, still has the -new infix) *)
-Record world := { disk : list (nat * content); store : list (nat * bool); problems : nat; reported : bool; trace : list step }.
+(* tmp: the temporary files that exist (file id, content) *)
+Record world := { disk : list (nat * content); store : list (nat * bool); problems : nat; reported : bool; trace : list step;
+                  tmp : list (nat * content) }.
 
 Definition res (A : Type) : Type := (A * world + halt * world)%type.
 Definition bind {A B} (m : res A) (k : A -> world -> res B) : res B :=
   match m with inl (a, w) => k a w | inr hw => inr hw end.
 
 Definition log (s : step) (w : world) : world :=
-  {| disk := disk w; store := store w; problems := problems w; reported := reported w; trace := trace w ++ [s] |}.
+  {| disk := disk w; store := store w; problems := problems w; reported := reported w; trace := trace w ++ [s]; tmp := tmp w |}.
 
 (* a step boundary: returns "this step has to fail" or halts the run (interruption) *)
 Definition tick (flt : option (nat * fkind)) (s : step) (w : world) : res bool :=
@@ -61,7 +66,7 @@ Definition raising (flt : option (nat * fkind)) (s : step) (w : world) : res uni
 
 Inductive fres := RFailed | RGarbage | RFormatted.
 Definition add_problem (w : world) : world :=
-  {| disk := disk w; store := store w; problems := S (problems w); reported := reported w; trace := trace w |}.
+  {| disk := disk w; store := store w; problems := S (problems w); reported := reported w; trace := trace w; tmp := tmp w |}.
 (* _format.format_code: a failure is caught, a problem is recorded and the input is returned *)
 Definition format_call (flt : option (nat * fkind)) (m : fmode) (w : world) : res fres :=
   bind (tick flt SFormat w) (fun failed w' =>
@@ -94,9 +99,11 @@ Fixpoint set_assoc {X} (k : nat) (v : X) (l : list (nat * X)) : list (nat * X) :
   | (k', x) :: r => if k =? k' then (k', v) :: r else (k', x) :: set_assoc k v r
   end.
 Definition set_disk (f : nat) (ct : content) (w : world) : world :=
-  {| disk := set_assoc f ct (disk w); store := store w; problems := problems w; reported := reported w; trace := trace w |}.
+  {| disk := set_assoc f ct (disk w); store := store w; problems := problems w; reported := reported w; trace := trace w; tmp := tmp w |}.
+Definition set_tmp (l : list (nat * content)) (w : world) : world :=
+  {| disk := disk w; store := store w; problems := problems w; reported := reported w; trace := trace w; tmp := l |}.
 Definition persist (e : nat) (w : world) : world :=
-  {| disk := disk w; store := set_assoc e false (store w); problems := problems w; reported := reported w; trace := trace w |}.
+  {| disk := disk w; store := set_assoc e false (store w); problems := problems w; reported := reported w; trace := trace w; tmp := tmp w |}.
 
 Fixpoint persist_all (flt : option (nat * fkind)) (es : list nat) (w : world) : res unit :=
   match es with
@@ -116,14 +123,23 @@ Definition prepare (flt : option (nat * fkind)) (c : config) (f : file) (w : wor
          persist_all flt (f_exts f) w3)
        end)).
 
+(* a failing step inside the try block of SourceFile.rewrite: the except clause removes the temporary file, then the exception
+   leaves pytest_sessionfinish *)
+Definition cleanup_raise (s : step) (w : world) : res unit := inr (HRaise s, set_tmp [] w).
+
 (* phase B for one file: SourceFile.rewrite *)
 Definition rewrite (flt : option (nat * fkind)) (c : config) (f : file) (w : world) : res unit :=
   bind (new_code flt c f w) (fun t w1 =>
   bind (raising flt (SOpenW (f_id f)) w1) (fun _ w2 =>
-  let w3 := set_disk (f_id f) Trunc w2 in                    (* open(.., "bw") has truncated the file *)
+  let w3 := set_tmp [(f_id f, Trunc)] w2 in                  (* the temporary file exists and is empty *)
   bind (tick flt (SWrite (f_id f)) w3) (fun failed w4 =>
-  if failed then inr (HRaise (SWrite (f_id f)), w4)
-  else inl (tt, set_disk (f_id f) (New t) w4)))).
+  if failed then cleanup_raise (SWrite (f_id f)) w4 else
+  let w5 := set_tmp [(f_id f, New t)] w4 in
+  bind (tick flt (SMode (f_id f)) w5) (fun failed w6 =>
+  if failed then cleanup_raise (SMode (f_id f)) w6 else
+  bind (tick flt (SRename (f_id f)) w6) (fun failed w7 =>
+  if failed then cleanup_raise (SRename (f_id f)) w7
+  else inl (tt, set_tmp [] (set_disk (f_id f) (New t) w7))))))).
 
 Fixpoint each (g : file -> world -> res unit) (fs : list file) (w : world) : res unit :=
   match fs with
@@ -132,7 +148,7 @@ Fixpoint each (g : file -> world -> res unit) (fs : list file) (w : world) : res
   end.
 
 Definition report (w : world) : world :=
-  {| disk := disk w; store := store w; problems := problems w; reported := Nat.ltb 0 (problems w); trace := trace w |}.
+  {| disk := disk w; store := store w; problems := problems w; reported := Nat.ltb 0 (problems w); trace := trace w; tmp := tmp w |}.
 
 Definition write_phase (flt : option (nat * fkind)) (c : config) (w : world) : res unit :=
   bind (each (prepare flt c) (c_files c) w) (fun _ w1 =>
@@ -144,7 +160,7 @@ Definition write_phase (flt : option (nat * fkind)) (c : config) (w : world) : r
 Definition init (c : config) (news olds : list nat) : world :=
   {| disk := map (fun f => (f_id f, Old)) (c_files c);
      store := map (fun e => (e, true)) news ++ map (fun e => (e, false)) olds;
-     problems := 0; reported := false; trace := [] |}.
+     problems := 0; reported := false; trace := []; tmp := [] |}.
 
 Definition final {A} (r : res A) : world := match r with inl (_, w) => w | inr (_, w) => w end.
 Definition halted {A} (r : res A) : option halt := match r with inl _ => None | inr (h, _) => Some h end.
